@@ -34,3 +34,4 @@ def run(prog, rep):
     _rk2.run_getter_verbatim(prog, rep)
     from ..rules import r_close as _rcr
     _rcr.run_release(prog, rep)
+    _rk2.run_ctor_pairs(prog, rep)
